@@ -152,7 +152,8 @@ def seq_is_empty(c):
        r"|^core::str::<impl str>::as_bytes$|^<\[.*\] as std::convert::AsRef<\[.*\]>>::as_ref$|^<std::string::String as std::convert::AsRef<(str|\[u8\])>>::as_ref$"
        r"|^<std::string::String as std::borrow::Borrow<str>>::borrow$|^<std::vec::Vec<.*> as std::borrow::Borrow(Mut)?<\[.*\]>>::borrow")
 def seq_view(c):
-    return [(c.st, Seq(c.seq_len(c.args[0])))]
+    src = c.deref(c.args[0])
+    return [(c.st, Seq(c.seq_len(c.args[0]), None, None, src.view if isinstance(src, Seq) else None))]
 
 
 @model(r"^std::slice::<impl \[.*\]>::to_vec$|^std::slice::<impl \[.*\]>::into_vec|^std::str::<impl str>::to_owned$|^std::str::<impl std::borrow::ToOwned for str>::to_owned$|^std::slice::<impl std::borrow::ToOwned for \[.*\]>::to_owned$|^<str as std::borrow::ToOwned>::to_owned$|^<\[.*\] as std::borrow::ToOwned>::to_owned$"
@@ -357,17 +358,20 @@ def index(c):
         kind = km.group(1)
         lo, hi = range_bounds(c, c.args[1], kind)
         what = "%s index" % kind
+        src = c.deref(c.args[0])
+        vw = src.view if isinstance(src, Seq) else None
+        sub = lambda n_, o_: Seq(n_, None, None, (vw[0], vw[1] + o_) if vw is not None else None)
         if lo is not None and hi is not None:
             c.require_ge(hi - lo, "index:order", "%s: start <= end" % what)
             c.require_ge(ln - hi, "index:end", "%s: end <= len" % what)
-            return [(c.st, Seq(hi - lo))]
+            return [(c.st, sub(hi - lo, lo))]
         if lo is not None:
             c.require_ge(ln - lo, "index:start", "%s: start <= len" % what)
-            return [(c.st, Seq(ln - lo))]
+            return [(c.st, sub(ln - lo, lo))]
         if hi is not None:
             c.require_ge(ln - hi, "index:end", "%s: end <= len" % what)
-            return [(c.st, Seq(hi))]
-        return [(c.st, Seq(ln))]
+            return [(c.st, sub(hi, Lin.const(0)))]
+        return [(c.st, sub(ln, Lin.const(0)))]
     if idx == "usize":
         i = c.num(c.args[1], 1)
         c.require_ge(ln - i - 1, "index:elem", "element index < len")
@@ -383,6 +387,7 @@ def copy_from_slice(c):
     c.oblige(ok, "copy_from_slice:len", "destination and source lengths are equal",
              None if ok else "cannot show %r == %r" % (c.st.sys.reduce(a), c.st.sys.reduce(b)))
     c.st.sys.add_eq(a - b)
+    c.it.record_write(c.st, c.deref(c.args[0]), Lin.const(0), a, "data")
     return [(c.st, Struct())]
 
 
@@ -391,11 +396,17 @@ def split_at(c):
     ln = c.seq_len(c.args[0])
     mid = c.num(c.args[1], 1)
     c.require_ge(ln - mid, "split_at", "mid <= len")
-    return [(c.st, Struct({0: Seq(mid), 1: Seq(ln - mid)}))]
+    src = c.deref(c.args[0])
+    vw = src.view if isinstance(src, Seq) else None
+    return [(c.st, Struct({0: Seq(mid, None, None, vw), 1: Seq(ln - mid, None, None, (vw[0], vw[1] + mid) if vw else None)}))]
 
 
 @model(r"^core::slice::<impl \[.*\]>::(fill|reverse|sort|sort_unstable|swap_with_slice)$")
 def slice_fill(c):
+    if c.name.endswith("::fill"):
+        d = c.deref(c.args[0])
+        if isinstance(d, Seq):
+            c.it.record_write(c.st, d, Lin.const(0), d.len, "zero" if c.it.is_zero_value(c.st, c.deref(c.args[1])) else "data")
     return [(c.st, Struct())]
 
 
@@ -499,6 +510,7 @@ def byteorder_rw(c):
     c.require_ge(ln - n, "byteorder:%s" % m.group(1), "buffer holds at least %d bytes" % n)
     if m.group(1) == "read":
         return [(c.st, c.top_ret())]
+    c.it.record_write(c.st, c.deref(c.args[0]), Lin.const(0), Lin.const(n), "data")
     return [(c.st, Struct())]
 
 
